@@ -528,10 +528,13 @@ def compare(ctx, case, expected, reported, sub, injkinds, targets):
         exp = expected.get(path)
         rep = reported.get(path)
         if exp is None:
-            cls = "well-formed-file" if not injkinds else "+".join(injkinds)
-            ctx.violation("C14/%s/unexpected-object/%s/%s" % (sub, okind, cls), case,
-                          {"object": path, "reported": rep, "expected": "no errors for this object"})
-            nviol += 1
+            # an object without any catalogue condition: every message is an over-report
+            for m in rep:
+                ctx.violation("C14/%s/over-report/%s/%s" % (sub, okind, R.cond_of_message(m)), case,
+                              {"object": path, "extra": m, "reported": rep, "conditions": [],
+                               "expected": "no errors for this object",
+                               "file": "well-formed" if not injkinds else "injected: " + "+".join(injkinds)})
+                nviol += 1
             continue
         if rep is None:
             if exp["required"]:
@@ -722,30 +725,36 @@ def valid(case):
 
 
 def shards(tier, seed):
-    nrand, per, nsweep = (14, 45, 2) if tier == "quick" else (16, 500, 16)
+    nrand, per, nrecipes, slices = (16, 40, 2, 8) if tier == "quick" else (32, 300, 8, 8)
     specs = [{"part": "random", "n": per, "seed": seed * 1000 + i} for i in range(nrand)]
-    specs += [{"part": "sweep", "seed": seed * 1000 + 500 + i, "limit": 260 if tier == "quick" else 700}
-              for i in range(nsweep)]
+    for r in range(nrecipes):
+        specs += [{"part": "sweep", "seed": seed * 1000 + 500 + r, "slice": i, "of": slices}
+                  for i in range(slices)]
     return specs
+
+
+def sweep_recipe(seed):
+    """the recipe of a sweep: the richest (most eligible injections) of 12 generated one-block recipes"""
+    got = []
+    gen.generate(recipe(max_blocks=1), 12, seed, got.append)
+    return max(got, key=lambda m: len(R.enumerate_injections(m)))
 
 
 def run_shard(spec, ctx):
     if spec["part"] == "random":
         gen.generate(cases(), spec["n"], spec["seed"], lambda c: run_case(c, ctx))
         return
-    # sweep: every eligible single injection on one generated recipe
-    got = []
-    gen.generate(recipe(max_blocks=1), 12, spec["seed"], got.append)
-    model = max(got, key=lambda m: len(R.enumerate_injections(m)))
+    # sweep: every eligible single injection on one generated recipe (this shard: one slice of them)
+    model = sweep_recipe(spec["seed"])
     allinj = R.enumerate_injections(model)
-    ctx.add("sweep_recipes", 1)
-    ctx.add("sweep_injections_enumerated", len(allinj))
-    step = max(1, -(-len(allinj) // spec["limit"]))
+    if spec["slice"] == 0:
+        ctx.add("sweep_recipes", 1)
+        ctx.add("sweep_injections_enumerated", len(allinj))
     done = 0
     for i, inj in enumerate(allinj):
-        if step > 1 and i % step:
+        if i % spec["of"] != spec["slice"]:
             continue
-        run_case({"file": model, "inj": [inj], "cli": bool(i % 4 == 0)}, ctx)
+        run_case({"file": model, "inj": [inj], "cli": bool((i // spec["of"]) % 4 == 0)}, ctx)
         done += 1
     ctx.add("sweep_injections_run", done)
 
